@@ -46,7 +46,7 @@
 EXTENDS Integers, Sequences, FiniteSets, TLC, Json
 
 CONSTANTS N,          \* nodes 1..N
-          Worlds      \* set of worlds [grid, g, lab, tag, cp] (see WorldProduct)
+          Worlds      \* tuple of families; a family is a set of worlds [grid, g, lab, tag, cp] (see WorldProduct)
 
 NoCap == 99999        \* "absent" (slice caps, relax_cap, perf caps off are 0)
 Nodes == 1..N
@@ -168,7 +168,7 @@ NoOut == [touched |-> <<>>, pops |-> 0, iters |-> 0, props |-> 0, rhits |-> 0, l
           maxd |-> 0]
 NoCur == [u |-> 0, c |-> 0, i |-> 0, a |-> 0]
 
-Init == /\ \E w \in Worlds : grid = w.grid /\ g = w.g /\ lab = w.lab /\ tag = w.tag /\ cp = w.cp
+Init == /\ \E i \in 1..Len(Worlds) : \E w \in Worlds[i] : grid = w.grid /\ g = w.g /\ lab = w.lab /\ tag = w.tag /\ cp = w.cp
         /\ pc = "init" /\ heap = <<>> /\ acc = [n \in Nodes |-> 0] /\ dist = [n \in Nodes |-> NoCap]
         /\ cnt = ZeroCnt /\ cur = NoCur /\ ring = <<>> /\ vis = <<>>
         /\ guard = "" /\ hist = <<>> /\ last = [op |-> "init"] /\ out = NoOut
@@ -229,7 +229,8 @@ Relax ==
            v == e.d
            d == dist[cur.u] + 1
            c == Contribution(cur.c, e, d, cp)
-           inex == ~ContribExact(cur.c, e, d, cp) /\ Abs(c) + 3 >= EpsUnits
+           exact == ContribExact(cur.c, e, d, cp)
+           inex == ~exact /\ Abs(c) + 3 >= EpsUnits
            adv == IF cur.i = Len(es) THEN "pop" ELSE "relax"
            cur2 == IF cur.i = Len(es) THEN NoCur ELSE [cur EXCEPT !.i = @ + 1]
        IN IF d > cp.radius                                     \* radius cap [P, TT]
@@ -241,7 +242,7 @@ Relax ==
                /\ last' = [op |-> "relax", kind |-> "layer", v |-> v]
                /\ UNCHANGED <<heap, acc, dist, ring, guard, hist>>
           ELSE IF BelowEps(c) /\ ~inex                         \* EPS cut-off
-          THEN /\ cnt' = [cnt EXCEPT !.cut = IF c # 0 THEN @ + 1 ELSE @] /\ pc' = adv /\ cur' = cur2
+          THEN /\ cnt' = [cnt EXCEPT !.cut = IF c # 0 \/ ~exact THEN @ + 1 ELSE @] /\ pc' = adv /\ cur' = cur2
                /\ last' = [op |-> "relax", kind |-> "eps", v |-> v]
                /\ UNCHANGED <<heap, acc, dist, ring, guard, hist>>
           ELSE IF cp.relax # NoCap /\ cnt.props >= cp.relax    \* relaxation budget exhausted [T1c, TT]
